@@ -322,7 +322,7 @@ impl Property for C02 {
         "one run = a world-A history (t >= 2; groups plus relatives: same measurement under another epoch/threshold; drop/dup/reorder) in which, at drawn moments and at quiescence, every bucket with fewer than t distinct delivered points is attacked: recover as is; padded with duplicates; threshold field rewritten to 0,1,..,d,d+1,t-1,t+1,2^32-1 in the first / in all shares; foreign shares mixed in at drawn positions. Ok is acceptable only as the secret of a group complete inside the collection. Every sent report is scanned at every offset for the client's randomness, r0, r1, encryption key, sharing key and measurement. For groups with >= t+1 dealt shares the polynomial is interpolated with big integers: exact degree t-1, non-constant coefficients non-zero, pairwise distinct, disjoint between groups. non-trivial = at least one sub-threshold bucket was attacked; states = (t, distinct delivered) cells"
     }
     fn runs(&self, thorough: bool) -> u64 {
-        if thorough { 80_000 } else { 1_200 }
+        if thorough { 80_000 } else { 900 }
     }
     fn run(&self, ctx: &mut Ctx) -> Result<(), Violation> {
         let mut gen = GenCfg::standard(ctx.thorough);
@@ -333,7 +333,7 @@ impl Property for C02 {
         gen.aux_kinds = vec![-1, 0, 4, 100, 300];
         // every 40th run: one group with a threshold that does not fit one byte and t+1..t+2 clients,
         // so that the polynomial clause is decided above 256 as well
-        let big = ctx.ch.chance(1, 40);
+        let big = ctx.ch.chance(1, 60);
         if big {
             gen.thresholds = vec![257, 300];
             gen.max_groups = 1;
